@@ -16,7 +16,6 @@ ASSUMPTIONS = [
     "exact tier: payloads and operands are small Gaussian integers, so float32/float64 arithmetic is exact",
     "reading of the statement: two slices/index arrays select the outer sub-matrix A[rows,:][:,cols] (the documented meaning of Sliced); a pair of python lists is numpy's pairwise selection",
     "index forms outside the statement's list (None, Ellipsis, numpy integers, a single python list, list combined with a slice) are only checked for model/implementation agreement (they end in NotImplementedError or, for a 2-element list, in the `b, int(j)` branch)",
-    "KronSum trees are compared with the independent oracle only (no Coq product theorem for KronSum yet)",
 ]
 FLAGS = ("getitem_row_nonsquare", "getitem_list_uses_dotA", "sliced_drops_imag", "sliced_index_array_cpu",
          "sliced_duplicate_indices", "getitem_empty_lists", "getitem_list_zip_truncates")
@@ -398,7 +397,7 @@ def run(ctx):
     judged = []
     for c, ob, M in zip(cases, obs, dense):
         judged.append([L.oracle_query(M, qd, o) for qd, o in zip(c["queries"], ob)])
-    coq_idx = [i for i, c in enumerate(cases) if not O.has_kind(c["tree"], ("KronSum",))]
+    coq_idx = list(range(len(cases)))
     keep = {i: [k for k, qd in enumerate(cases[i]["queries"]) if not qd.get("nomodel")] for i in coq_idx}
     terms = [L.coq_case(cases[i], obs[i], [j[2] for j in judged[i]], fl, keep[i]) for i in coq_idx]
     bad, nq_coq, err = L.eval_cases("c20", terms)
